@@ -76,6 +76,13 @@ def gen(rng, tier, n):
             # the same JSON value several times in one array, each occurrence in its own representation (json.Number spellings,
             # typed arrays, pointers), under uniqueItems / const / enum / contains
             x = gv.gen_json(rng, 1)
+            if rng.random() < 0.35:
+                # word boundaries that are exactly float64 (and float32): every numeric kind that holds them must agree
+                x = Num(rng.choice(["9223372036854775808", "-9223372036854775808", "18446744073709551616", "9007199254740992",
+                                    "4294967296", "2147483648", "-2147483648", "16777216", "4611686018427387904", "1073741824",
+                                    "0.00000095367431640625", "9223372036854774784"]))
+                if rng.random() < 0.4:
+                    x = rng.choice([[x], Obj([("a", x)])])
             while not gv.float64_ok(x):
                 x = gv.gen_json(rng, 1)
             j = [x, x] + ([gv.gen_json(rng, 0)] if rng.random() < 0.3 else [])
